@@ -321,6 +321,9 @@ func (rn *runner) guard(what string, f func()) {
 func (rn *runner) launch() {
 	script, port := rn.script()
 	mode := map[string]string{"basic": "basic", "hook": "hook", "ctl": "direct"}[rn.sc.Kind]
+	if rn.sc.Kind == "ctl" && (rn.sc.Beh == "fmq" || rn.sc.Beh == "midstate") {
+		mode = "fairmq" // FairMQ transitioner: FairMQ state names, multi-step CONFIGURE / RESET
+	}
 	data, _ := json.Marshal(map[string]interface{}{
 		"shell": true, "value": script, "env": []string{"VERIF_TAG=" + rn.tag},
 		"controlPort": port, "controlMode": mode,
@@ -380,7 +383,8 @@ func (rn *runner) request(r string) {
 	inst := v.inst(rn.sc)
 	// written before the handler runs: if the executor dies inside the handler's goroutine before the
 	// verdict can be written, the supervisor turns this line into the Req line (it was delivered)
-	rn.rec.emitLocked("ReqIssued", map[string]interface{}{"r": r, "inst": inst, "nth": v.nReq[r] + 1})
+	rn.rec.emitLocked("ReqIssued", map[string]interface{}{"r": r, "inst": inst, "nth": v.nReq[r] + 1,
+		"late": v.nStatus["TASK_FINISHED"]+v.nStatus["TASK_FAILED"]+v.nStatus["TASK_KILLED"] > 0})
 	var err error
 	rn.guard("Req "+r, func() {
 		if r == "Kill" {
@@ -400,7 +404,9 @@ func (rn *runner) request(r string) {
 			v.stopOrKill = true
 		}
 	}
-	rn.rec.emitLocked("Req", map[string]interface{}{"r": r, "inst": inst, "nth": nth, "delivered": delivered})
+	// late: a terminal status of this task has already been handed to the event loop
+	late := v.nStatus["TASK_FINISHED"]+v.nStatus["TASK_FAILED"]+v.nStatus["TASK_KILLED"] > 0
+	rn.rec.emitLocked("Req", map[string]interface{}{"r": r, "inst": inst, "nth": nth, "delivered": delivered, "late": late})
 }
 
 func (rn *runner) release() {
